@@ -199,6 +199,8 @@ OPTION_SETS = [
     {'use_c': True, 'penalty': 0.5, 'drop_stddev': 1},
     {'parallel': True},
     {'parallel': True, 'use_c': True, 'window': 1},
+    {'drop_stddev': 0.5},                      # trims already in clusters of three (mean + 0.5 std)
+    {'use_c': True, 'drop_stddev': 0.5},
 ]
 
 
@@ -218,7 +220,7 @@ def universe(tier, seed, shard, nshards):
                 if k >= n:
                     continue
                 for init in ('kmeans++', 'random', 'sample1', 'sample2'):
-                    osets = OPTION_SETS if (n == 3 or thorough) else [OPTION_SETS[0], OPTION_SETS[3], OPTION_SETS[6], OPTION_SETS[8]]
+                    osets = OPTION_SETS if (n == 3 or thorough) else [OPTION_SETS[0], OPTION_SETS[3], OPTION_SETS[6], OPTION_SETS[8], OPTION_SETS[9]]
                     if n == 5 and not thorough:
                         osets = [OPTION_SETS[0], OPTION_SETS[6], OPTION_SETS[7]]
                     for oi, o in enumerate(osets):
@@ -231,6 +233,51 @@ def universe(tier, seed, shard, nshards):
                             if idx % nshards != shard:
                                 continue
                             yield 'U1-1d-n%d' % n, 1, data, dict(o, k=k, init=init, max_it=max_it)
+    # one series repeated plus one or two outliers: the shape on which drop_stddev trims (a cluster needs >= 3 members for that)
+    cnt = 0
+    for n in (4, 5):
+        for base in pool:
+            for out in pool:
+                if out == base:
+                    continue
+                cnt += 1
+                if n == 5 and cnt % (4 if not thorough else 1):
+                    continue
+                data = tuple(sorted((base,) * (n - 1) + (out,)))
+                for init in ('random', 'kmeans++'):
+                    for o in (OPTION_SETS[9], OPTION_SETS[6]):
+                        idx += 1
+                        if idx % nshards != shard:
+                            continue
+                        yield 'U3-outlier-n%d' % n, 1, data, dict(o, k=2, init=init, max_it=10)
+    # three copies + a near and a far series: at convergence the near one sits in the big cluster and is trimmed by drop_stddev
+    for bi, base in enumerate(pool):
+        for dn in (1, 5):
+            for df in (3, 7):
+                near, far = pool[(bi + dn) % len(pool)], pool[(bi + df) % len(pool)]
+                if len(set((base, near, far))) < 3:
+                    continue
+                data = tuple(sorted((base, base, base, near, far)))
+                for init in ('random', 'kmeans++'):
+                    for o in (OPTION_SETS[9], OPTION_SETS[10]):
+                        idx += 1
+                        if idx % nshards != shard:
+                            continue
+                        yield 'U3-outlier-n5b', 1, data, dict(o, k=2, init=init, max_it=10)
+    # richer values: 3-letter alphabet, lengths 1..3 (distances spread enough for drop_stddev to trim inside a converged cluster)
+    A3 = univ.alphabet(univ.BASE3, seed)
+    pool3 = univ.series(A3, 1, 3)
+    cnt = 0
+    for data in itertools.combinations_with_replacement(pool3, 4):
+        cnt += 1
+        if cnt % (1500 if not thorough else 150):
+            continue
+        for init in ('random', 'kmeans++'):
+            for o in (OPTION_SETS[9], OPTION_SETS[10], OPTION_SETS[0]):
+                idx += 1
+                if idx % nshards != shard:
+                    continue
+                yield 'U4-3letter-n4', 1, data, dict(o, k=2, init=init, max_it=10)
     pool2 = univ.series_nd(A2, 2, 2, 2)
     cnt = 0
     for data in itertools.combinations_with_replacement(pool2, 3):
@@ -275,7 +322,7 @@ def run(ctx):
         PROP, ctx.tier, ctx.seed, acc,
         rule='for every (data set, configuration) the COMPLETE tree of random outcomes (numpy.random.randint/choice, random.randint owned by the explorer; for choice without replacement every '
              'ordered subset of the support) is enumerated depth-first; a state is one (data set, configuration), validated traces are complete fits; non-trivial = duplicates in the data set or more than one leaf',
-        bounds={'data': 'multisets of n = 3 (every 4th; thorough all), 4 (every 110th; thorough every 14th), 5 (every 2100th; thorough every 400th) series over a 2-letter alphabet with lengths 2..3; ndim 2: multisets of 3 series of 2 points',
+        bounds={'data': 'multisets of n = 3 (every 4th; thorough all), 4 (every 110th; thorough every 14th), 5 (every 2100th; thorough every 400th) series over a 2-letter alphabet with lengths 2..3; outlier data sets: one series n-1 times plus one different series, n = 4 (all 132) and 5 (every 4th; thorough all) with drop_stddev 0.5 / 1 in both engines; three copies + a near + a far series (n = 5) with drop_stddev 0.5; every 1500th (thorough 150th) multiset of 4 series over the 3-letter alphabet with lengths 1..3, drop_stddev 0.5 / None; ndim 2: multisets of 3 series of 2 points',
                 'k': '2, 3 (< n)', 'init': 'k-means++, random, initialize_sample_size 1 and 2', 'options': '%d option sets over window, penalty, drop_stddev, use_c, parallel (virtual pool); max_it 1, 2, 10' % len(OPTION_SETS),
                 'leaf_cap': LEAF_CAP},
         assumptions=['all outcomes of non-zero probability are enumerated, which is a superset of all seeds; numpy.random.choice(range(n), k, replace=False) in the random initialisation is only used for its length',
